@@ -112,6 +112,14 @@ def run(chk):
     ecases = [{"scen": sc, "name": n} for n, sc in (layouts + extra12 + extra13)]
     ecases += [{"scen": dict(ver="12", auth="psk", suite="TLS_PSK_WITH_AES_128_GCM_SHA256", emsC=2, emsS=2, cidC=-1, cidS=-1), "name": "psk-noems"},
                {"scen": dict(ver="12", emsC=2, emsS=2, cidC=-1, cidS=-1), "name": "cert-noems"}]
+    # histories: the session is resumed from stores that an earlier, closed connection filled; export from a snapshot after Close
+    st12 = dict(ver="12", helloVerify=True, stores=True, cidC=-1, cidS=-1)
+    for h in (1, 2):
+        ecases.append({"scen": st12, "name": "stores-history%d" % h, "history": h})
+        ecases.append({"scen": dict(st12, auth="psk", suite="TLS_PSK_WITH_AES_128_CCM_8"), "name": "stores-psk-history%d" % h, "history": h})
+    ecases.append({"scen": st12, "name": "stores-history1-snapshot-close", "history": 1, "snapshotClose": True})
+    ecases.append({"scen": dict(ver="12", helloVerify=False, cidC=-1, cidS=-1), "name": "snapshot-close12", "snapshotClose": True})
+    ecases.append({"scen": dict(ver="13", helloVerify=False, curvesC=[29], curvesS=[29], cidC=-1, cidS=-1), "name": "snapshot-close13", "snapshotClose": True})
     erows = run_cases(binary, "TestVerifExporterSecrecy", ecases, "exporter")
     cands = exports = 0
     for c, r in zip(ecases, erows):
